@@ -611,7 +611,9 @@ class io_epoll_context::read_sender {
 
       UNIFEX_ASSERT(static_cast<completion_base&>(self).enqueued_.load() == 0);
 
-      self.stopCallback_.destruct();
+      epoll_event event = {};
+      (void)epoll_ctl(
+          self.context_.epollFd_.get(), EPOLL_CTL_DEL, self.fd_, &event);
 
       auto oldState = self.state_.fetch_add(
           io_epoll_context::read_sender::operation<Receiver>::io_flag,
@@ -621,13 +623,11 @@ class io_epoll_context::read_sender {
                Receiver>::cancel_pending_mask) != 0) {
         // io has been cancelled by a remote thread.
         // The other thread is responsible for enqueueing the operation
-        // completion
+        // completion; complete_with_done() destroys the stop callback.
         return;
       }
 
-      epoll_event event = {};
-      (void)epoll_ctl(
-          self.context_.epollFd_.get(), EPOLL_CTL_DEL, self.fd_, &event);
+      self.stopCallback_.destruct();
 
       auto result = readv(self.fd_, self.buffer_, 1);
       if (result < 0) {
@@ -664,6 +664,10 @@ class io_epoll_context::read_sender {
       if (static_cast<completion_base&>(self).enqueued_.load() == 0) {
         // Avoid instantiating set_done() if we're not going to call it.
         if constexpr (is_stop_ever_possible) {
+          // Wait until the thread that ran the stop callback is finished
+          // with it: it still writes to the callback after request_stop()
+          // returned.
+          self.stopCallback_.destruct();
           unifex::set_done(std::move(self.receiver_));
         } else {
           // This should never be called if stop is not possible.
@@ -849,8 +853,6 @@ class io_epoll_context::write_sender {
 
       UNIFEX_ASSERT(static_cast<completion_base&>(self).enqueued_.load() == 0);
 
-      self.stopCallback_.destruct();
-
       epoll_event event = {};
       (void)epoll_ctl(
           self.context_.epollFd_.get(), EPOLL_CTL_DEL, self.fd_, &event);
@@ -863,9 +865,11 @@ class io_epoll_context::write_sender {
                Receiver>::cancel_pending_mask) != 0) {
         // io has been cancelled by a remote thread.
         // The other thread is responsible for enqueueing the operation
-        // completion
+        // completion; complete_with_done() destroys the stop callback.
         return;
       }
+
+      self.stopCallback_.destruct();
 
       auto result = writev(self.fd_, self.buffer_, 1);
       if (result < 0) {
@@ -902,6 +906,10 @@ class io_epoll_context::write_sender {
       if (static_cast<completion_base&>(self).enqueued_.load() == 0) {
         // Avoid instantiating set_done() if we're not going to call it.
         if constexpr (is_stop_ever_possible) {
+          // Wait until the thread that ran the stop callback is finished
+          // with it: it still writes to the callback after request_stop()
+          // returned.
+          self.stopCallback_.destruct();
           unifex::set_done(std::move(self.receiver_));
         } else {
           // This should never be called if stop is not possible.
